@@ -350,7 +350,52 @@ def unit_auth_init(shape):
     return run
 
 
+class InitModels14(Models14):
+    def contract_for(self, ex, path, f, args, kw):
+        if f.qualname == '_validate_ports_low_level':
+            # (port forms: bounded twin) accepted ports pass through unchanged
+            return [(path, NONE)]
+        return Models14.contract_for(self, ex, path, f, args, kw)
+
+
+def unit_service_init(clsname):
+    """the service object that _add_ephemeral_service reads its command from stores the caller's key, ports, version and flags
+    exactly as given (the line-break guard and the type prefix are applied to *that* key)"""
+    def run(ctx):
+        ctx.fn(MODULE, clsname + '.__init__')
+        import txtorcon.onion as onion
+        ex = ctx.ex
+        path = ctx.new_path()
+        cls = getattr(onion, clsname)
+        svc = ex.new_inst(path, cls)
+        key = VStr(z3.String('private_key'))
+        ctx.input('private_key', key)
+        ports = ex.new_list(path, [VStr(z3.String('port0'))])
+        cfg = VOpaque('config', 4000)
+        kw = {'private_key': key, 'version': VInt(z3.Int('version')), 'detach': VBool(z3.Bool('detach')), 'single_hop': VBool(z3.Bool('single_hop'))}
+        ctx.cover('pre_satisfiable', path)
+        g = ex.getattr_v(path, svc, '__init__')
+        n_ok = 0
+        for p, r in ex.call(g[0][0], g[0][1], [cfg, ports], kw):
+            if isinstance(r, Raise):
+                ctx.oblige('no_exception', p, B(False))
+                continue
+            n_ok += 1
+            H = p.heap
+            o = svc.oid
+            ctx.oblige('post.key_ports_version_and_flags_are_stored_exactly_as_given', p,
+                       B(H.get(('f', o, '_private_key')) is key and H.get(('f', o, '_ports')) is ports and H.get(('f', o, '_config')) is cfg
+                         and H.get(('f', o, '_version')) is kw['version'] and H.get(('f', o, '_detach')) is kw['detach']
+                         and H.get(('f', o, '_single_hop')) is kw['single_hop']),
+                       clause='a caller-supplied key is sent unchanged apart from its type prefix, and key material containing line breaks is rejected')
+        if not n_ok:
+            ctx.oblige('some_normal_exit', path, B(False))
+    return run
+
+
 def make_models_for(unit_name):
+    if '.__init__' in unit_name:
+        return InitModels14()
     return AuthModels14() if '/auth' in unit_name else Models14()
 
 
@@ -387,6 +432,8 @@ def units():
     for shape in ('tn', 'nt', 'tnt', 'ntn', 'tt', 'nn'):
         out.append(('C14/auth_clients@%s' % shape, unit_auth_init(shape)))
     out.append(('C14/remove', unit_remove()))
+    for c in ('EphemeralOnionService', 'EphemeralAuthenticatedOnionService'):
+        out.append(('C14/%s.__init__' % c, unit_service_init(c)))
     return out
 
 
